@@ -919,8 +919,10 @@ class Terminal:
                         f"expected CoE cmd SDORES, got {coecmd}")
                 if sdocmd & 0xe0 != 0:
                     raise EtherCatError(f"requested index {index}, got {idx}")
-                if sdocmd & 1 and len(data) == 7:
-                    data = data[:3 + (sdocmd >> 1) & 7]
+                if len(data) == 10:
+                    # a segment shorter than 7 bytes is padded to 7; bits
+                    # 1..3 give the number of unused bytes
+                    data = data[:10 - ((sdocmd >> 1) & 7)]
                 ret.append(data[3:])
                 retsize += len(data) - 3
                 if sdocmd & 1:
